@@ -468,6 +468,15 @@ def oracle_scenario(check, c):
                     v.append(f"C11 scenario {c['uid']}: enable {s['names']} raised {type(exc).__name__}: {exc}")
                     continue
                 stack = list(reversed(new)) + stack
+                # the parameters in force for every active context: its own defaults, overridden by the enclosing chain's
+                # values, overridden by the keyword arguments of this activation
+                got_params = [(x.name, {k_: Fraction(v_) for k_, v_ in x.defaults.items()}) for x in u._active_ctx.contexts]
+                want_params = [(cx["name"], {k_: v_ for k_, v_ in pr.items() if k_ in cx["defaults"] or k_ in kw or k_ in base}) for cx, pr in stack]
+                for (gn, gp), (wn, wp) in zip(got_params, want_params):
+                    if gn != wn or any(gp.get(k_) != v_ for k_, v_ in wp.items() if k_ in gp):
+                        v.append(f"C11 scenario {c['uid']}: after enable {s['names']} {s['kw']} the active context {gn} has parameters "
+                                 f"{ {k_: str(v_) for k_, v_ in gp.items()} }, expected {wn} with { {k_: str(v_) for k_, v_ in wp.items()} }")
+                        break
             elif s["f"] == "disable":
                 u.disable_contexts(s["n"])
                 stack = [] if s["n"] is None else stack[s["n"]:]
